@@ -17,7 +17,7 @@ def part(name, target=VRUN, race=False, shards=None, floor=None, tiers=("quick",
 ENGINES = [
     {"name": "vrun", "path": "/verif/harness/cmd/vrun", "serves_properties": [],
      "kind_free_text": "Go binary built from /repo's working tree + overlay; runs one campaign part (pure campaigns in harness/vk, "
-                       "virtual-time cluster simulator in harness/vsim, loopback gRPC cluster in harness/vnet)"},
+                       "virtual-time cluster simulator in harness/vsim, loopback gRPC cluster of real replicas in harness/vlive)"},
     {"name": "inpkg", "path": "/verif/harness/inpkg", "serves_properties": [],
      "kind_free_text": "in-package overlay tests (zz_verif_test.go) for unexported pieces named by a property"},
 ]
@@ -111,6 +111,7 @@ PROPERTIES = {
         "parts": [
             part("C13.store", shards={"quick": 12, "thorough": 16}, floor=500),
             part("C13.prune", shards={"quick": 8, "thorough": 16}, floor=500),
+            part("C13.live", race=True, shards={"quick": 2, "thorough": 16}, floor=1, timeout={"quick": 900, "thorough": 7200}),
         ],
     },
     "C12": {
@@ -164,6 +165,7 @@ PROPERTIES = {
             part("C14.queue", target=("test", "core/eventloop"), shards={"quick": 8, "thorough": 16}, floor=1000),
             part("C14.loop", target=("test", "core/eventloop"), shards={"quick": 8, "thorough": 16}, floor=1000),
             part("C14.concurrent", target=("test", "core/eventloop"), race=True, shards={"quick": 8, "thorough": 16}, floor=50),
+            part("C14.live", race=True, shards={"quick": 2, "thorough": 16}, floor=1, timeout={"quick": 900, "thorough": 7200}),
         ],
     },
     "C15": {
@@ -177,6 +179,7 @@ PROPERTIES = {
         "parts": [
             part("C15.seq", shards={"quick": 16, "thorough": 16}, floor=1000),
             part("C15.concurrent", race=True, shards={"quick": 8, "thorough": 16}, floor=20),
+            part("C15.live", race=True, shards={"quick": 2, "thorough": 16}, floor=1, timeout={"quick": 900, "thorough": 7200}),
         ],
     },
     "C18": {
@@ -200,7 +203,8 @@ PROPERTIES = {
         "level_note": "simulated network applies the server's transport-identity rule; vote verification is synchronous; <= f faulty replicas; cryptographic hardness assumed",
         "technique": "runtime monitor (commit-history oracle) over randomized hostile executions of the real stacks",
         "rule": "C01: ledger agreement",
-        "parts": [part("C01.sim", shards={"quick": 16, "thorough": 16}, floor=100, timeout={"quick": 900, "thorough": 14400})],
+        "parts": [part("C01.sim", shards={"quick": 16, "thorough": 16}, floor=100, timeout={"quick": 900, "thorough": 14400}),
+                  part("C01.live", race=True, shards={"quick": 4, "thorough": 16}, floor=1, timeout={"quick": 900, "thorough": 7200})],
     },
     "C03": {
         "level": "exploration",
@@ -216,7 +220,8 @@ PROPERTIES = {
         "level_note": "evidence oracle is a necessary condition computed from the sign log (cannot false-alarm); certificate validity judged by the ground-truth oracle",
         "technique": "runtime monitor (state polling + sign-log evidence oracle) over randomized hostile executions",
         "rule": "C07: pacemaker",
-        "parts": [part("C07.sim", shards={"quick": 16, "thorough": 16}, floor=100, timeout={"quick": 900, "thorough": 14400})],
+        "parts": [part("C07.sim", shards={"quick": 16, "thorough": 16}, floor=100, timeout={"quick": 900, "thorough": 14400}),
+                  part("C07.live", race=True, shards={"quick": 4, "thorough": 16}, floor=1, timeout={"quick": 900, "thorough": 7200})],
     },
     "C06": {
         "level": "exploration",
@@ -225,7 +230,8 @@ PROPERTIES = {
         "level_note": "client goroutines make these executions non-deterministic in command placement; a logical barrier on ClientIO's waiter table precedes every look at the outcome list",
         "technique": "runtime monitor (client-boundary outcome history + event history) over randomized hostile executions",
         "rule": "C06: exactly-once execution",
-        "parts": [part("C06.sim", shards={"quick": 16, "thorough": 16}, floor=50, timeout={"quick": 900, "thorough": 14400})],
+        "parts": [part("C06.sim", shards={"quick": 16, "thorough": 16}, floor=50, timeout={"quick": 900, "thorough": 14400}),
+                  part("C06.live", race=True, shards={"quick": 4, "thorough": 16}, floor=1, timeout={"quick": 900, "thorough": 7200})],
     },
     "C05": {
         "level": "exploration",
